@@ -16,6 +16,10 @@ package keyper
 //@   event pub(content(eonPubKey.PublicKey), eonPubKey.ActivationBlock, eonPubKey.KeyperConfigIndex, eonPubKey.Eon)
 //@   // the gossiped message carries the key's own fields, each in its place
 //@   ensures ret0 == nil ==> (msg != nil && msg.InstanceId == pkh.config.InstanceID && msg.PublicKey == eonPubKey.PublicKey && msg.ActivationBlock == eonPubKey.ActivationBlock && msg.KeyperConfigIndex == eonPubKey.KeyperConfigIndex && msg.Eon == eonPubKey.Eon)
+//@   // ... and it reaches the gossip layer: success means exactly one SendMessage call, with that message; an error
+//@   // means that SendMessage was called and failed, or that signing failed - nothing else may stop a key
+//@   ensures ret0 == nil ==> (evcount("gossiped") == old(evcount("gossiped")) + 1 && evarg("gossiped", 0, old(evcount("gossiped"))) == msg)
+//@   ensures ret0 != nil ==> (evcount("gossiped") == old(evcount("gossiped")) + 1 || evcount("signFail") == old(evcount("signFail")) + 1)
 //@   opt frame = off
 //@
 //@ // callback mode: a call of the configured EonPublicKeyHandlerFunc is the hand-over
